@@ -104,11 +104,36 @@ func poolObligations(c *Checker, pfx string) {
 				// zeroed region must cover [0, cap)
 				covered := false
 				var other []*Effect
+				// the wipe may be spelled as several loops (blocks of samples plus a tail, a peeled iteration): the
+				// regions are merged before they are compared with [0, cap)
+				var wipes []region
 				for _, e := range ms[:putIdx] {
+					if e.Kind == EStoreElem || e.Kind == ECopy || e.Kind == EClear {
+						if rg, ok := regionOf(e); ok && rg.zero && rg.stor.Name == b.stor() {
+							wipes = append(wipes, rg)
+						}
+					}
+				}
+				mergedWipes := normalizeRegions(wipes, put.Facts)
+				inMerged := map[*Effect]bool{}
+				if len(mergedWipes) < len(wipes) {
+					for _, rg := range wipes {
+						inMerged[rg.eff] = true
+					}
+					for _, rg := range mergedWipes {
+						if rg.stride <= 1 && rg.start.IsZero() && (rg.count.Equal(normInt(b.capT())) || eqUnder(rg.count.toTerm(), b.capT(), put.Facts) || (pm.newCap != nil && normInt(pm.through(p, rg.count.toTerm())).Equal(normInt(pm.newCap)))) {
+							covered = true
+						}
+					}
+				}
+				for _, e := range ms[:putIdx] {
+					if inMerged[e] && covered {
+						continue
+					}
 					switch e.Kind {
 					case EStoreElem, ECopy, EClear:
 						rg, ok := regionOf(e)
-						if ok && rg.zero && rg.stor.Name == b.stor() && rg.start.IsZero() {
+						if ok && rg.zero && rg.stride <= 1 && rg.stor.Name == b.stor() && rg.start.IsZero() {
 							if rg.count.Equal(normInt(b.capT())) || (pm.newCap != nil && normInt(pm.through(p, rg.count.toTerm())).Equal(normInt(pm.newCap))) {
 								covered = true
 							}
